@@ -9,6 +9,8 @@ pub mod c04;
 pub mod c05;
 pub mod c06;
 pub mod c07;
+pub mod c08;
+pub mod c09;
 pub mod c16;
 
 pub struct PropDef {
@@ -27,6 +29,8 @@ pub fn get(id: &str) -> Option<PropDef> {
         "C05" => Some(c05::def()),
         "C06" => Some(c06::def()),
         "C07" => Some(c07::def()),
+        "C08" => Some(c08::def()),
+        "C09" => Some(c09::def()),
         "C16" => Some(c16::def()),
         _ => None,
     }
